@@ -7,7 +7,9 @@ unsigned int nondet_uint(void);
 _Bool nondet_bool(void);
 typedef struct Futex Futex_t;
 typedef struct Futex_Node Node_t;
+#ifndef MAXN
 #define MAXN 3
+#endif
 static Node_t b_node[MAXN];
 static char b_promise[MAXN];
 static _Bool b_takeable[MAXN];
